@@ -33,7 +33,7 @@ def bounds(tier):
 
 
 def goals(tier):
-    return ["two-clashing-pairs", "records-respelled-in-place-between-two-assemblies", "spelling-in-another-container", "spelling-of-rotated-plasmids", "per-letter-palindromic-junction", "mixed-case-between-records", "region-lowered", "region-raised", "per-letter-overhang", "error-MissingModule", "error-DuplicateModules",
+    return ["ambiguity-code-N-inside-a-junction-overhang", "two-clashing-pairs", "records-respelled-in-place-between-two-assemblies", "spelling-in-another-container", "spelling-of-rotated-plasmids", "per-letter-palindromic-junction", "mixed-case-between-records", "region-lowered", "region-raised", "per-letter-overhang", "error-MissingModule", "error-DuplicateModules",
             "error-InvalidSequence", "typing-accepts", "typing-rejects", "alternating", "per-letter-equal-vector-overhangs", "ambiguity-code-N-in-either-case"]
 
 
@@ -250,6 +250,20 @@ def run_unit(unit, st, tier):
                 cased = [transform(s, t) for s, t in zip(upn, combo)]
                 compare(st, "assembly", enz, upn, cased, dict(family="assembly", enz=enz, k=k, case=list(combo), with_N=True), cache)
                 st.goal("ambiguity-code-N-in-either-case")
+        # ... and N inside a junction overhang itself (each junction in turn): both copies carry it, in whatever case
+        if g0.ov >= 2:
+            for j in range(k + 1):
+                w = base["ovs"][j]
+                jb = dict(base, ovs=[(w[:1] + "N" + w[2:]) if i == j else x for i, x in enumerate(base["ovs"])])
+                if not asm.well_formed(jb)[0]:
+                    st.filtered += 1
+                    continue
+                vecj, modsj = asm.pieces_to_plasmids(jb)
+                upj = [vecj.upper()] + [m.upper() for m in modsj]
+                for combo in itertools.product(["U", "L", "A0", "A1"], repeat=k + 1):
+                    cased = [transform(s, t) for s, t in zip(upj, combo)]
+                    compare(st, "assembly", enz, upj, cased, dict(family="assembly", enz=enz, k=k, case=list(combo), N_in_junction=j), cache)
+                    st.goal("ambiguity-code-N-inside-a-junction-overhang")
         st.sample(dict(family="assembly", enz=enz, k=k, case=["U"] + ["L"] * k))
     elif kind == "letters":
         enz, k = arg
